@@ -9,14 +9,14 @@ order or default in the source changes the generated definition and breaks these
 namespace EgVerif.IPFilter
 open EgVerif.Gen.FactsC05IR
 
-theorem allowIR_eq_model (f : Filter) (ip : Option Addr) : allowIR f ip = allow f ip := by
+theorem allow_regenerated_from_source (f : Filter) (ip : Option Addr) : allowIR f ip = allow f ip := by
   cases ip with
   | none => rfl
   | some a =>
     simp only [allowIR, allow, containsE, Option.isNone_some, Bool.false_eq_true, if_false]
     rfl
 
-theorem allowAll_loop (fs0 : List Filter) (ip : Option Addr) (fs : List Filter) :
+theorem allowAll_regenerated_from_source_loop (fs0 : List Filter) (ip : Option Addr) (fs : List Filter) :
     allowAllIR_loop1 fs0 ip fs = if fs.all (fun f => allow f ip) then .inr () else .inl false := by
   induction fs with
   | nil => rfl
@@ -24,8 +24,8 @@ theorem allowAll_loop (fs0 : List Filter) (ip : Option Addr) (fs : List Filter) 
     simp only [allowAllIR_loop1, ih, List.all_cons]
     by_cases h : allow f ip = true <;> simp [h]
 
-theorem allowAllIR_eq_model (fs : List Filter) (ip : Option Addr) : allowAllIR fs ip = allowAll fs ip := by
-  simp only [allowAllIR, allowAll, allowAll_loop]
+theorem allowAll_regenerated_from_source (fs : List Filter) (ip : Option Addr) : allowAllIR fs ip = allowAll fs ip := by
+  simp only [allowAllIR, allowAll, allowAll_regenerated_from_source_loop]
   by_cases h : List.all fs (fun f => allow f ip) = true <;> simp [h]
 
 end EgVerif.IPFilter
